@@ -203,11 +203,34 @@ def gen_imports(rng, tree, relpath, root="proj", externals=True, n=None):
     return out
 
 
+def twin_statements(rng, tree, relpath):
+    """two statements of one file with the same module text and names that differ only in relative level / import form
+    (package-local and project-wide `config`; `try: from .m import f / except ImportError: from m import f`)"""
+    importer = module_of(relpath)
+    depth = importer.count(".")
+    if depth < 1:
+        return []
+    mods = sorted({module_of(p) for p, v in tree.items() if v is None or p.endswith(".py")})
+    pkg = ".".join(importer.split(".")[:depth])
+    local = [m[len(pkg) + 1:] for m in mods if m.startswith(pkg + ".") and "." not in m[len(pkg) + 1:] and m != importer]
+    if not local:
+        return []
+    x = rng.choice(local)
+    k = rng.randrange(3)
+    if k == 0 and depth >= 2:
+        return [([], f"from . import {x}"), ([], f"from .. import {x}")]
+    if k == 1:
+        return [(["Try.body"], f"from .{x} import f"), (["Try.handler"], f"from {x} import f")]
+    return [([], f"from . import {x}"), ([], f"import {x}")]
+
+
 def fill_sources(rng, tree, root="proj", externals=True):
     placed = {}
     for p in list(tree):
         if p.endswith(".py"):
             items = gen_imports(rng, tree, p, root, externals)
+            if rng.random() < 0.15:
+                items = items + twin_statements(rng, tree, p)
             src = "X = Y = E = 1\n" + "".join(place(st, ch) for ch, st in items)
             tree[p] = src
             placed[p] = items
